@@ -4,6 +4,7 @@
 package hx
 
 import (
+	"bytes"
 	"fmt"
 	"sort"
 
@@ -62,6 +63,20 @@ func Build(p *Program) (*Built, error) {
 		return nil, fmt.Errorf("build failed: %w\n%s", err, p.Text)
 	}
 	return &Built{Lib: lib, Prog: p}, nil
+}
+
+// Reloaded stores the knowledge base in binary form and loads it into a fresh library: the
+// working-memory index maps are rebuilt by the loader, not by the builder.
+func (b *Built) Reloaded() (*Built, error) {
+	var buf bytes.Buffer
+	if err := b.Lib.StoreKnowledgeBaseToWriter(&buf, KBName, KBVer); err != nil {
+		return nil, fmt.Errorf("store: %w", err)
+	}
+	lib := ast.NewKnowledgeLibrary()
+	if _, err := lib.LoadKnowledgeBaseFromReader(bytes.NewReader(buf.Bytes()), true); err != nil {
+		return nil, fmt.Errorf("load: %w", err)
+	}
+	return &Built{Lib: lib, Prog: b.Prog}, nil
 }
 
 func (b *Built) Instance() (*ast.KnowledgeBase, error) {
